@@ -524,55 +524,67 @@ def run_task(task):
 
 def _findiff(rec):
     """The finite-difference self-check offered to users agrees with the reference derivatives."""
+    for pi, term in enumerate(pool()):
+        # two points: the declared values, and a point made of whole numbers handed over with an integer dtype (what
+        # np.asarray([1, 1]) gives; BIOGEME.likelihood_finite_difference_hessian passes np.asarray(x) on as it is)
+        for point in ('declared', 'integers'):
+            _findiff_one(rec, pi, term, point)
+
+
+def _findiff_one(rec, pi, term, point):
     import numpy as np
     from vf.engine import make_db
     import biogeme.tools.derivatives as td
-
-    for pi, term in enumerate(pool()):
-        free = sorted(b for b in R.leaves(term, 'beta') if b in G.FREE)
-        full = dict(G.PARAMS)
-        rows = ref_rows(term, full, free, rec)
-        if not rows:
-            continue
-        n = len(free)
-        aggF = sum(r[2] for r in rows)
-        aggG = _sum_vec([r[3] for r in rows], n)
-        aggH = _sum_mat([r[4] for r in rows], n)
-        db = make_db([r[1] for r in rows], G.COLUMNS)
-        expr = R.Builder(G.betas_spec()).build(term)
-        fct = expr.create_function(database=db, number_of_draws=10, gradient=True, hessian=True, bhhh=False)
-        names = list(expr.id_manager.free_betas.names)
+    free = sorted(b for b in R.leaves(term, 'beta') if b in G.FREE)
+    full = dict(G.PARAMS)
+    if point == 'integers':
+        full.update({nm: 1.0 for nm in free})
+    rows = ref_rows(term, full, free, rec)
+    if not rows:
+        return
+    tag = f'pool{pi}' + ('' if point == 'declared' else '|integer-dtype-point')
+    n = len(free)
+    aggF = sum(r[2] for r in rows)
+    aggG = _sum_vec([r[3] for r in rows], n)
+    aggH = _sum_mat([r[4] for r in rows], n)
+    db = make_db([r[1] for r in rows], G.COLUMNS)
+    expr = R.Builder(G.betas_spec()).build(term)
+    fct = expr.create_function(database=db, number_of_draws=10, gradient=True, hessian=True, bhhh=False)
+    names = list(expr.id_manager.free_betas.names)
+    if point == 'declared':
         x = np.array([full[nm] for nm in names], dtype=float)
+    else:
+        x = np.asarray([int(full[nm]) for nm in names])
 
-        def f_only(xx):
-            return fct(xx).function_output
+    def f_only(xx):
+        return fct(xx).function_output
 
-        case = dict(part='findiff', pool=pi)
-        try:
-            g_fd = td.findiff_g(f_only, x)
-            h_fd = td.findiff_h(f_only, x)
-            out = td.check_derivatives(f_only, x, names=names, logg=False)
-        except Exception as e:
-            rec.violation(f'C02|findiff-raised-{type(e).__name__}|pool{pi}', f'{type(e).__name__}: {e}', case)
-            continue
-        rec.case(('findiff', pi), (pi, [round(float(v), 5) for v in g_fd]), outcome='ok')
+    case = dict(part='findiff', pool=pi, point=point)
+    try:
+        g_fd = td.findiff_g(f_only, x)
+        h_fd = td.findiff_h(f_only, x)
+        out = td.check_derivatives(f_only, x, names=names, logg=False)
+    except Exception as e:
+        rec.violation(f'C02|findiff-raised-{type(e).__name__}|{tag}', f'{type(e).__name__}: {e}', case)
+        return
+    rec.case(('findiff', pi, point), (pi, [round(float(v), 5) for v in g_fd]), outcome='ok')
 
-        def fclose(a, b):
-            return abs(a - b) <= 1e-4 * max(1.0, abs(a), abs(b))
+    def fclose(a, b):
+        return abs(a - b) <= 1e-4 * max(1.0, abs(a), abs(b))
 
-        if not all(fclose(float(a), b) for a, b in zip(g_fd, aggG)):
-            rec.violation(f'C02|findiff_g-disagrees-with-reference|pool{pi}', f'{list(g_fd)} vs {aggG}', case,
-                          expected=aggG, observed=list(map(float, g_fd)))
-        if not all(fclose(float(h_fd[i][j]), aggH[i][j]) for i in range(n) for j in range(n)):
-            rec.violation(f'C02|findiff_h-disagrees-with-reference|pool{pi}', f'{h_fd} vs {aggH}', case,
-                          expected=aggH, observed=repr(h_fd))
-        f0, g0, h0, gdiff, hdiff = out
-        if not dclose(float(f0), aggF) or not _cmp_vec(list(map(float, g0)), aggG):
-            rec.violation(f'C02|check_derivatives-analytical-part|pool{pi}', 'f/g returned by check_derivatives differ from the reference',
-                          case, expected=(aggF, aggG), observed=(float(f0), list(map(float, g0))))
-        if not all(abs(float(d)) <= 1e-4 * max(1.0, abs(w)) for d, w in zip(gdiff, aggG)):
-            rec.violation(f'C02|check_derivatives-gdiff-not-small|pool{pi}', f'gdiff={list(gdiff)}', case,
-                          observed=list(map(float, gdiff)))
+    if not all(fclose(float(a), b) for a, b in zip(g_fd, aggG)):
+        rec.violation(f'C02|findiff_g-disagrees-with-reference|{tag}', f'{list(g_fd)} vs {aggG}', case,
+                      expected=aggG, observed=list(map(float, g_fd)))
+    if not all(fclose(float(h_fd[i][j]), aggH[i][j]) for i in range(n) for j in range(n)):
+        rec.violation(f'C02|findiff_h-disagrees-with-reference|{tag}', f'{h_fd} vs {aggH}', case,
+                      expected=aggH, observed=repr(h_fd))
+    f0, g0, h0, gdiff, hdiff = out
+    if not dclose(float(f0), aggF) or not _cmp_vec(list(map(float, g0)), aggG):
+        rec.violation(f'C02|check_derivatives-analytical-part|{tag}', 'f/g returned by check_derivatives differ from the reference',
+                      case, expected=(aggF, aggG), observed=(float(f0), list(map(float, g0))))
+    if not all(abs(float(d)) <= 1e-4 * max(1.0, abs(w)) for d, w in zip(gdiff, aggG)):
+        rec.violation(f'C02|check_derivatives-gdiff-not-small|{tag}', f'gdiff={list(gdiff)}', case,
+                      observed=list(map(float, gdiff)))
 
 
 def _nodb(rec):
